@@ -6,6 +6,7 @@ import (
 	"bufio"
 	"fmt"
 	"io"
+	"os"
 	"os/exec"
 	"strconv"
 	"strings"
@@ -42,6 +43,8 @@ type Solver struct {
 	tctx    *TermCtx
 	dead    bool
 }
+
+var slowLog = os.Getenv("SYMGO_SLOW") != ""
 
 var solverArgv = []string{"z3", "-in", "-t:20000"}
 
@@ -163,7 +166,20 @@ func (s *Solver) readLine() string {
 // With wantModel, a model for all declared variables is returned on sat.
 func (s *Solver) Check(extra *Term, wantModel bool) (SatResult, Model) {
 	t0 := time.Now()
-	defer func() { s.stats.Time += time.Since(t0) }()
+	defer func() {
+		d := time.Since(t0)
+		s.stats.Time += d
+		if slowLog && d > 2*time.Second {
+			desc := "<pc>"
+			if extra != nil {
+				desc = extra.String()
+				if len(desc) > 300 {
+					desc = desc[:300]
+				}
+			}
+			fmt.Fprintf(os.Stderr, "SLOW %.1fs model=%v %s\n", d.Seconds(), wantModel, desc)
+		}
+	}()
 	if extra != nil {
 		s.emit(extra)
 		s.flushDefs()
